@@ -31,7 +31,9 @@ pub open spec fn tr_typeref(t: TypeRef) -> Seq<Ev>
     decreases typeref_depth(t),
 {
     seq![Ev::TypeRef(t)] + (
-        if t.definition is Unpatched { Seq::empty() } else {
+        // a reference BY NAME that stands for an anonymous type (an alias) is presented, not unfolded: the types nested inside the
+        // alias's type were written once, at the alias, and are presented there -- "nothing is presented twice ... nothing from another file"
+        if t.definition is Unpatched || t.is_named_reference { Seq::empty() } else {
             match spec_concrete(&t) {
                 Types::ResultType(r) => if typeref_depth(r.success_type) < typeref_depth(t) && typeref_depth(r.failure_type) < typeref_depth(t) {
                     tr_typeref(r.success_type) + tr_typeref(r.failure_type) } else { Seq::empty() },
